@@ -38,6 +38,13 @@ SCENARIOS = [
     # the local side aborts while the peer is still streaming P-DATA at it: the provider sits in Sta13 ignoring PDUs
     {"name": "requestor-aborts-while-peer-streams", "ops": ["find-then-abort"], "end": "none", "find_n": 400},
 ]
+SCENARIOS += [
+    # a second user thread of the requestor releases while its own C-ECHO is still being served by a slow handler ...
+    {"name": "release-from-second-thread-during-own-echo", "ops": ["echo-bg"], "end": "release", "handler": "block"},
+    # ... and the acceptor's application aborts (as AE.shutdown() would) after the A-RELEASE-RQ arrived, before the handler returns
+    {"name": "release-during-own-echo-then-acceptor-aborts-in-handler", "ops": ["echo-bg"], "end": "release", "handler": "block",
+     "server": ["abort-blocking", "release-rq-seen"]},
+]
 BY_NAME = {s["name"]: s for s in SCENARIOS}
 
 
@@ -111,7 +118,8 @@ def run(scn, seed=0, yields=None, raise_mask_acc=None, raise_mask_req=None, watc
     from pydicom.dataset import Dataset
     taps.reset()
     rec = Recorder()
-    sync = {"handler_entered": threading.Event(), "go_end": threading.Event(), "established": threading.Event()}
+    sync = {"handler_entered": threading.Event(), "go_end": threading.Event(), "established": threading.Event(),
+            "resume_handler": threading.Event(), "release_rq_seen": threading.Event()}
     acc_net = scn.get("acc_net_timeout", 3.0)
     # ACSE/DIMSE timeouts are generous so that a loaded machine cannot turn a slow answer into a timeout-abort
     ae_acc = harness.make_ae(title="ACCEPTOR", timeouts=(3.0, 3.0, acc_net, 3.0), supported=[VER, CT, FIND])
@@ -126,7 +134,17 @@ def run(scn, seed=0, yields=None, raise_mask_acc=None, raise_mask_req=None, watc
             event.assoc.abort()
         elif scn.get("handler") == "sleep":
             time.sleep(0.25)
+        elif scn.get("handler") == "block":
+            # released by the server-side script, else after the peer's A-RELEASE-RQ has arrived (+ a little), else after 2 s
+            if sync["release_rq_seen"].wait(2.0) and not scn.get("server"):
+                time.sleep(0.05)
+            elif scn.get("server"):
+                sync["resume_handler"].wait(2.0)
         return 0x0000
+
+    def on_fsm_acc(event):
+        if event.fsm_event == "Evt12":
+            sync["release_rq_seen"].set()
 
     def on_store(event):
         return 0x0000
@@ -145,7 +163,7 @@ def run(scn, seed=0, yields=None, raise_mask_acc=None, raise_mask_req=None, watc
     # the scenario's own EVT_ESTABLISHED handler is bound FIRST: evt.trigger stops calling an event's remaining handlers after
     # one raised, so a raising recorder handler (C26) must not be able to switch the scenario's own plumbing off
     handlers = [(evt.EVT_ESTABLISHED, on_established)] + rec.make("acc", raise_mask_acc) + [
-        (evt.EVT_C_ECHO, on_echo), (evt.EVT_C_STORE, on_store), (evt.EVT_C_FIND, on_find)]
+        (evt.EVT_C_ECHO, on_echo), (evt.EVT_C_STORE, on_store), (evt.EVT_C_FIND, on_find), (evt.EVT_FSM_TRANSITION, on_fsm_acc)]
     server, port = harness.start_server(ae_acc, handlers)
     res = {"req": {}, "acc": {}}
     threads = []
@@ -170,7 +188,13 @@ def run(scn, seed=0, yields=None, raise_mask_acc=None, raise_mask_req=None, watc
             sync["handler_entered"].wait(3.0); time.sleep(0.02)
         elif when == "with-end":
             sync["go_end"].wait(5.0)
+        elif when == "release-rq-seen":
+            sync["release_rq_seen"].wait(4.0); time.sleep(0.02)
         for part in act.split("+"):
+            if part == "abort-blocking":
+                quiet(a.abort)
+                sync["resume_handler"].set()
+                continue
             if part == "release":
                 t = threading.Thread(target=quiet, args=(a.release,), daemon=True)
             elif part == "abort":
@@ -196,6 +220,10 @@ def run(scn, seed=0, yields=None, raise_mask_acc=None, raise_mask_req=None, watc
                 if op == "echo":
                     st_ = assoc.send_c_echo()
                     res["req"].setdefault("status", []).append(getattr(st_, "Status", None))
+                elif op == "echo-bg":
+                    tb = threading.Thread(target=quiet, args=(assoc.send_c_echo,), daemon=True)
+                    tb.start(); threads.append(tb)
+                    sync["handler_entered"].wait(3.0)
                 elif op == "find":
                     ds = Dataset(); ds.QueryRetrieveLevel = "PATIENT"; ds.PatientName = "*"
                     res["req"].setdefault("status", []).append([getattr(s, "Status", None) for s, _ in assoc.send_c_find(ds, FIND)])
